@@ -78,6 +78,24 @@ Section WithInput.
     | CCmp op a b => match eval a w en, eval b w en with Some x, Some y => Some (cmp_eval op x y) | _, _ => None end
     end.
 
+  (* lbl: for guard { body }  — at most n guard evaluations *)
+  Definition loop_iter (guard : state -> option bool) (body : state -> flow) (site l : Z) : nat -> state -> flow :=
+    fix iter (n : nat) (st : state) {struct n} : flow :=
+      match n with
+      | O => FOutOfFuel site
+      | S n' =>
+          match guard st with
+          | None => FPanic site
+          | Some false => FNormal st
+          | Some true =>
+              match body st with
+              | FNormal st' => iter n' st'
+              | FBreak l' st' => if Z.eqb l' l then FNormal st' else FBreak l' st'
+              | r => r
+              end
+          end
+      end.
+
   Section Body.
     (* callf f w cost alloc: the callee's result on window w (defined by `run` with less fuel) *)
     Variable callf : Z -> window -> Z -> Z -> flow.
@@ -109,21 +127,7 @@ Section WithInput.
           | None => FPanic site
           end
       | SLoop site l c body =>
-          (fix iter (n : nat) (st : state) {struct n} : flow :=
-             match n with
-             | O => FOutOfFuel site
-             | S n' =>
-                 match evalc c (sw st) (senv st) with
-                 | None => FPanic site
-                 | Some false => FNormal st
-                 | Some true =>
-                     match exb body (tick st) with
-                     | FNormal st' => iter n' st'
-                     | FBreak l' st' => if Z.eqb l' l then FNormal st' else FBreak l' st'
-                     | r => r
-                     end
-                 end
-             end) lfuel st
+          loop_iter (fun st' => evalc c (sw st') (senv st')) (fun st' => exb body (tick st')) site l lfuel st
       | SBreak l => FBreak l st
       | SCall site f lo hi =>
           match eval lo w en with
@@ -216,6 +220,13 @@ Definition classify (r : flow) : oclass :=
 Definition final_cost (r : flow) : Z := match r with FRet _ st | FNormal st | FBreak _ st => scost st | _ => -1 end.
 Definition final_alloc (r : flow) : Z := match r with FRet _ st | FNormal st | FBreak _ st => salloc st | _ => -1 end.
 
+(* the input as a function: byte i of the list (0 outside) *)
+Definition rd_of (bs : list Z) : Z -> Z := fun i => nth (Z.to_nat i) bs 0.
+
 (* decode the whole byte string: window (0, n, cap) *)
 Definition run_top (rd : Z -> Z) (ps : programs) (fuel : nat) (f : Z) (n cap : Z) : flow :=
   run rd ps fuel f (mkW 0 n cap) 0 0.
+
+(* UnmarshalBinary of decoder f applied to exactly the bytes bs (len = cap = length bs), fuel = len + 1 *)
+Definition decode (ps : programs) (f : Z) (bs : list Z) : flow :=
+  run_top (rd_of bs) ps (S (length bs)) f (Z.of_nat (length bs)) (Z.of_nat (length bs)).
